@@ -19,7 +19,9 @@ package suites
 // named by a DEL since.  The current code prunes tmpCap on ACK only; a name that is not on
 // offer but was listed since the last ACK (it survived a NAK or a DEL) is reported under the
 // narrow class tmpcap-not-pruned (finding, notes/proposed-fixes/cap-tmpcap-prune.diff); a name
-// that survived an ACK, or was never listed, under req-unadvertised.  After an ACK answered by
+// that survived an ACK, or was never listed, under req-unadvertised.  Completeness: at the final
+// line of a listing every supported name on offer must be in the REQ, and CAP END is legitimate
+// only when there is none (class req-incomplete).  After an ACK answered by
 // END or AUTHENTICATE tmpCap must be empty (class tmpcap-not-cleared, through VerifCapState).
 //
 // The oracle keeps two ledgers of "acknowledged and not since deleted": the IRCv3 reading
@@ -708,6 +710,30 @@ func runCapSession(c Case) Result {
 				}
 			}
 		}
+		// ---- oracle: REQ completeness. At the final line of a listing the client must request
+		// every supported name on offer — listed on ANY line of this listing (since the last
+		// concluded round, minus DEL) — and may answer CAP END only if there is none.
+		if !cc.noTracking && !ended && (sub == "LS" || sub == "NEW") && len(params) == 3 {
+			requested := map[string]bool{}
+			for _, l := range wrote {
+				if strings.HasPrefix(l, "CAP REQ") {
+					rest := strings.TrimPrefix(strings.TrimPrefix(strings.TrimPrefix(l, "CAP REQ"), " "), ":")
+					for _, tok := range strings.Split(rest, " ") {
+						requested[tok] = true
+					}
+				}
+			}
+			var missing []string
+			for name := range offered {
+				if supported(name) && !requested[name] {
+					missing = append(missing, name)
+				}
+			}
+			if len(missing) > 0 {
+				sort.Strings(missing)
+				fail("req-incomplete", "round %d: final line of the listing answered by %v although %q (advertised in this listing, supported) is not requested", k, outs, missing)
+			}
+		}
 		// ---- oracle: the round concludes (reply patterns with their list parameter)
 		conclusions := 0
 		for _, o := range outs {
@@ -885,8 +911,18 @@ func genCapEvents(r *rand.Rand, removal bool) []string {
 				add("*", "LS", "*", a)
 			}
 			a := genCapAdvert(r, removal)
-			if r.Intn(12) == 0 {
+			switch r.Intn(12) {
+			case 0:
 				a = ""
+			case 1, 2:
+				// a multi-line listing whose final line holds nothing the client supports:
+				// everything usable was on the continuation lines
+				for n := 1 + r.Intn(2); n > 0; n-- {
+					c := Pick(r, "multi-prefix away-notify", "server-time", "batch x-vendor", "sasl=PLAIN chghost", "account-tag foo/unknown", "x-vendor")
+					lastAdvert = append(lastAdvert, strings.Split(c, " ")...)
+					add("*", "LS", "*", c)
+				}
+				a = Pick(r, "foo/unknown", "bar/unknown example.org/vendor=1", "x-vendor", "", "unknown-cap=a,b")
 			}
 			lastAdvert = append(lastAdvert, strings.Split(a, " ")...)
 			add("*", "LS", a)
@@ -1084,6 +1120,10 @@ func init() {
 			{"T", "", "multi-prefix", ev("*", "LS", "multi-prefix"), ev("me", "ACK", "multi-prefix")},
 			{"", "", "a", ev("me", "ACK", "multi-prefix "), ev("me", "ACK", ""), ev("me", "DEL", "")},
 			{"", "", "multi-prefix", ev("*", "LS", "multi-prefix multi-prefix=x multi-prefix"), ev("me", "ACK", "multi-prefix multi-prefix")},
+			// multi-line listings whose final line has nothing usable: the earlier lines count
+			{"", "", "away-notify multi-prefix", ev("*", "LS", "*", "away-notify multi-prefix foo/unknown"), ev("*", "LS", "bar/unknown example.org/vendor=1"), ev("me", "ACK", "away-notify multi-prefix")},
+			{"S", "", "sasl batch", ev("*", "LS", "*", "sasl=PLAIN"), ev("*", "LS", "*", "batch"), ev("*", "LS", ""), ev("me", "ACK", "batch sasl")},
+			{"", "", "batch", ev("*", "LS", "*", "batch"), ev("me", "DEL", "batch"), ev("*", "LS", "x-vendor")},
 			// a second round after the ACK that started authentication (cap-notify): only what the new listing offers
 			{"S", "", "sasl multi-prefix away-notify", ev("*", "LS", "cap-notify multi-prefix sasl"), ev("me", "ACK", "cap-notify multi-prefix sasl"), ev("me", "DEL", "multi-prefix"), ev("me", "NEW", "away-notify"), ev("me", "ACK", "away-notify")},
 			{"X", "", "sasl batch", ev("*", "LS", "*", "sasl=EXTERNAL"), ev("*", "LS", "batch"), ev("me", "ACK", "batch sasl"), ev("me", "NEW", "server-time"), ev("me", "NAK", "server-time"), ev("me", "NEW", "chghost")},
